@@ -23,12 +23,12 @@ def run(prop, tier, seed, scratch, replay=None):
         return res.finish()
     cfg = "MC_ChainSync_%s.cfg" % tier
     bfs = vlib.run_tlc(scratch, "ChainSync.tla", cfg, out_traces=traces, tag="bfs",
-                       timeout=3000 if tier == "thorough" else 600, coverage=(tier == "thorough"))
+                       timeout=3000 if tier == "thorough" else 600)
     vlib.require_tlc_ok(bfs, "exhaustive exploration")
+    cov = None
     if tier == "thorough":
-        dead = [a for a in bfs["coverage_zero"] if a in ("Receive", "Extend", "Reorg", "DupDisconnect", "StaleDisconnect", "Stop", "Start")]
-        if dead:
-            raise vlib.Broken("actions never taken: %s" % dead)
+        cov = vlib.coverage_check(scratch, "ChainSync.tla", "MC_ChainSync_quick.cfg",
+                                  ["Receive", "Extend", "Reorg", "DupDisconnect", "StaleDisconnect", "Stop", "Start"])
     simtr = scratch.path("sim.ndjson")
     sim = vlib.run_tlc(scratch, "ChainSync.tla", "MC_ChainSync_sim.cfg", simulate=NSIM[tier], depth=26, seed=seed,
                        out_traces=simtr, tag="sim", timeout=1800)
@@ -60,6 +60,8 @@ def run(prop, tier, seed, scratch, replay=None):
         "replayed_steps": rep["steps"] + rep2["steps"], "simulated_behaviours": sim["ntraces"],
         "tlc_bfs_wall_s": bfs["wall_s"], "checker_cmd": bfs["cmd"],
     }
+    if cov:
+        res.coverage["coverage_run"] = cov
     res.assumptions = [
         "the backend is the scripted chain.Interface of harness/internal/mockchain (bitcoind notification order, real watch-list semantics)",
         "every state is a quiescent point: the driver drains the wallet's notification goroutine after each backend action",
